@@ -32,6 +32,7 @@ Grammar (line oriented; '#' starts a comment at line start; '<<<' ... '>>>' deli
     switch-slice FN K I N   print switch K (source order) of FN keeping only the arm groups g with g mod N == I; the other
                             arms become assume(0).  Use with 'foreach I in 0 .. N-1': together the slices cover every arm.
     switch-only FN K LABEL / switch-except FN K LABEL
+    branch-cut FN then|else TEXT ; slice-group NAME
                             keep only (all but) the arm group whose first case label contains LABEL
     pre-unwind FN K N       unwind loop K (source order) of function FN N times with unwinding assertion BEFORE contract
                             instrumentation (complete when the assertion holds; needed because cbmc 6.11 dfcc mishandles
@@ -65,7 +66,7 @@ class Query:
         self.replace = []; self.selfstub = False; self.harness = ''; self.unwindset = []
         self.flags = []; self.object_bits = None; self.timeout = None; self.expect_unreachable = False
         self.kind = 'proof'; self.unit = None; self.vars = {}; self.args = None; self.entry = None
-        self.no_enforce = False; self.note = ''; self.pre_unwind = []; self.switch_slice = []; self.no_loop_contracts = False; self.plain = False; self.also = []; self.cflags = []; self.checks = 'default'
+        self.no_enforce = False; self.note = ''; self.pre_unwind = []; self.switch_slice = []; self.no_loop_contracts = False; self.plain = False; self.also = []; self.cflags = []; self.checks = 'default'; self.slice_group = None
 
 class UnitSpec:
     def __init__(self, name):
@@ -162,6 +163,11 @@ def parse_file(path):
                 elif key == 'unwindset': cur.unwindset += rest.split()
                 elif key in ('switch-only', 'switch-except'):
                     sfn, sk, lab = rest.split(); cur.switch_slice.append((sfn, int(sk), key[7:], lab))
+                elif key == 'branch-cut':
+                    # branch-cut FN then|else TEXT : the `if` of FN whose translated condition contains TEXT (exactly one must)
+                    # keeps only the other branch in this query; `slice-group` ties the queries whose cuts together cover every path
+                    sfn, side, txt = rest.split(' ', 2); cur.switch_slice.append((sfn, 'if', side, txt.strip()))
+                elif key == 'slice-group': cur.slice_group = rest.strip()
                 elif key == 'switch-slice':
                     sfn, sk, si, sn = rest.split(); cur.switch_slice.append((sfn, int(sk), si, int(sn)))
                 elif key == 'pre-unwind':
